@@ -147,8 +147,8 @@ theorem program_copy_no_merge (labels : List String) (names : TopUp.Names) (ref 
 /-- every conformation keeps its own atoms, in order, in front of the copies -/
 theorem program_own_atoms_kept (recs : List AtomRec) (c : String × List AtomRec) (hc : c ∈ toppedUp recs) :
     ∃ own, (c.1, own) ∈ conformations recs ∧ own <+: c.2 := by
-  unfold toppedUp at hc
-  simp only [List.mem_map] at hc
+  unfold toppedUp toppedUp2 at hc
+  simp only [List.mem_map, List.map_map] at hc
   obtain ⟨c0, h0, rfl⟩ := hc
   exact ⟨c0.2, h0, List.prefix_append _ _⟩
 
